@@ -286,13 +286,14 @@ def renderTemplate (env : RenderEnv) (pg : Page) (sym : Bytes) (values : List (B
     | some t => Res.ok t
     | none => .err "template-lookup"
   let tpl := tpl ++ pg.extra
-  let tpl := match pg.err with
-    | some e => if tpl.length = 0 then e else e ++ [0x0a] ++ tpl
-    | none => tpl
   let values ← match pg.sizer with
     | some sz => sz.getAt values idx
     | none => if idx > 0 then Res.err "sizer-needed" else .ok values
-  execTpl tpl values
+  let r ← execTpl tpl values
+  -- the error text is prepended to the rendered output, never parsed as template source (fix: commit)
+  pure (match pg.err with
+    | some e => if tpl.length = 0 then e else e ++ [0x0a] ++ r
+    | none => r)
 
 /-- `render(sym, values, idx)`: template, menu, final size audit. Returns the page with the menu
 as Go leaves it. -/
